@@ -223,8 +223,10 @@ func (self *CallStm) format(printer *printer, prefix string) {
 		len(self.Modifiers.Bindings.List) > 0 ||
 		self.Modifiers.Local || self.Modifiers.Preflight || self.Modifiers.Volatile) {
 		if self.Modifiers.Bindings == nil {
+			// Same place as the call, but without its comments, which
+			// have already been printed.
 			self.Modifiers.Bindings = &BindStms{
-				Node: self.Node,
+				Node: AstNode{Loc: self.Node.Loc},
 			}
 		}
 		printer.mustWriteString(") using (\n")
@@ -298,6 +300,7 @@ func (self *PipelineRetains) format(printer *printer) {
 	printer.mustWriteString(INDENT)
 	printer.mustWriteString("retain (\n")
 	for _, ref := range self.Refs {
+		printer.printComments(&ref.Node, INDENT+INDENT)
 		printer.mustWriteString(INDENT)
 		printer.mustWriteString(INDENT)
 		ref.format(printer, INDENT+INDENT)
